@@ -17,6 +17,7 @@ import Golib.Lists.LinkedProof
 import Golib.Lists.Multi
 import Golib.Lists.Cross
 import Golib.Lists.TableWire
+import Golib.Lists.LinkedAtomic
 
 namespace C13
 open Lists
@@ -180,6 +181,30 @@ theorem wire_prefix_fails {α : Type} (g : Growth) (hg : g.OK) (c : Codec α) (z
   exact run_read_prefix_fails g hg c z l l0 q s hi h0.inv hsz hw
     (by rw [hs0]; unfold TL.BOUND; omega) hs hq
 
+/-- **wire_read_appends.**  `Read` is an append into the receiver IN WHATEVER STATE it is: after
+    adds, after an earlier `Read`, … — the receiver's elements stay in place and the decoded ones
+    follow; so two chunks read one after the other into one list give both sequences in order. -/
+theorem wire_read_appends {α : Type} (g : Growth) (hg : g.OK) (c : Codec α) (z : α) (l l0 : TL α) (r : Bytes)
+    (hi : TL.Inv l) (hi0 : TL.Inv l0) (hsz : l.size < 8388608) (hw : ∀ x ∈ TL.abs l, c.wf x)
+    (hb : l0.size + l.size ≤ TL.BOUND) :
+    ∃ l', P.run (read g c z l0) (write c l ++ r) = some (l', r) ∧
+      TL.abs l' = TL.abs l0 ++ TL.abs l ∧ TL.Inv l' :=
+  run_read_write g hg c z l l0 r hi hi0 hsz hw hb
+
+theorem wire_read_two_chunks {α : Type} (g : Growth) (hg : g.OK) (c : Codec α) (z : α) (a b l0 : TL α)
+    (r : Bytes) (ha : TL.Inv a) (hb' : TL.Inv b) (hi0 : TL.Inv l0)
+    (hsa : a.size < 8388608) (hsb : b.size < 8388608)
+    (hwa : ∀ x ∈ TL.abs a, c.wf x) (hwb : ∀ x ∈ TL.abs b, c.wf x)
+    (hbound : l0.size + a.size + b.size ≤ TL.BOUND) :
+    ∃ l1 l2, P.run (read g c z l0) (write c a ++ (write c b ++ r)) = some (l1, write c b ++ r) ∧
+      P.run (read g c z l1) (write c b ++ r) = some (l2, r) ∧
+      TL.abs l2 = TL.abs l0 ++ TL.abs a ++ TL.abs b := by
+  obtain ⟨l1, h1, a1, i1⟩ := run_read_write g hg c z a l0 (write c b ++ r) ha hi0 hsa hwa (by omega)
+  have hs1 : l1.size = l0.size + a.size := by
+    rw [← TL.abs_length i1, a1, List.length_append, TL.abs_length hi0, TL.abs_length ha]
+  obtain ⟨l2, h2, a2, _⟩ := run_read_write g hg c z b l1 r hb' i1 hsb hwb (by omega)
+  exact ⟨l1, l2, h1, h2, by rw [a2, a1]⟩
+
 /-- reading depends only on the bytes consumed: the same list is read whatever follows -/
 theorem wire_locality {α : Type} (g : Growth) (c : Codec α) (z : α) (l0 l' : TL α) (bs r : Bytes)
     (h : P.run (read g c z l0) bs = some (l', r)) :
@@ -289,6 +314,14 @@ theorem sorting_orders_small {α : Type} (big : SortFn) {le : α → α → Bool
   exact sorted_means_ordered_1 le asc vals _ (goInsertionSort_sorted (lessIdx1_tp h asc vals) _)
 
 example : goInsertionSort (fun a b : Nat => decide (a ≤ b)) [3, 1, 2, 1] = [1, 1, 2, 3] := by decide
+
+/-- queries are functions of the CURRENT contents (nothing is remembered between calls in the
+    model): Sorting, an in-place Set at an existing index, the same Sorting again -/
+example :
+    let l0 : TL Int := ⟨3, false, #[3, 1, 2]⟩
+    let srt := fun (l : TL Int) => sorting (goSort (fun less xs => xs.mergeSort less)) intLe true
+      (fun i => l.table.getD i 0) l.size
+    srt l0 = [1, 2, 0] ∧ (TL.set l0 1 9).map srt = some [2, 0, 1] := by decide
 
 /-- the contract is not vacuous: merge sort keeps it -/
 theorem sort_contract_satisfiable : SortContract (fun less xs => xs.mergeSort less) :=
@@ -447,6 +480,25 @@ example : (sortTable (goSort (fun less xs => xs.mergeSort less)) Growth.go
 theorem linkedlist_seq (ops : List Linked.Op) :
     (Linked.LL.run ops Linked.LL.empty).1 = (Linked.Spec.run ops []).1 :=
   Linked.run_refines_empty ops
+
+/-- **linkedlist_atomic_conservation.**  For every sequential history of the mutators
+    (AddFirst / AddLast / Add / RemoveFirst / RemoveLast / Remove) — hence for every interleaving
+    in which concurrent calls take effect one at a time under the list's mutex — the elements
+    still in the list together with the elements handed out by the Remove* calls are, as a
+    multiset, the initial elements together with the elements added; two interleavings of the
+    same calls agree on it.  (Tie B's concurrent stage checks this on the implementation through
+    every public mutator alias.) -/
+theorem linkedlist_atomic_conservation (ops : List Linked.Op) (s : List Int)
+    (h : ∀ op ∈ ops, op.mutator = true) :
+    ((Linked.Spec.run ops s).2 ++ ((Linked.Spec.run ops s).1.map Linked.Out.handedOut).flatten).Perm
+      (s ++ (ops.map Linked.Op.added).flatten) ∧
+    ∀ ops2, ops.Perm ops2 →
+      ((Linked.Spec.run ops s).2 ++ ((Linked.Spec.run ops s).1.map Linked.Out.handedOut).flatten).Perm
+        ((Linked.Spec.run ops2 s).2 ++ ((Linked.Spec.run ops2 s).1.map Linked.Out.handedOut).flatten) :=
+  ⟨Linked.run_conserves ops s h, fun ops2 hp => Linked.interleavings_agree ops ops2 s hp h⟩
+
+example : ((Linked.Spec.run [.add 1, .addFirst 2, .removeLast, .addLast 3, .removeAt 0] []).2 ++
+    [1, 2]).Perm ([] ++ [1, 2, 3]) := by decide
 
 /-! ### the statements of /repo that the repairs replace -/
 
